@@ -50,6 +50,12 @@ prop("C06", claimed=True, level="model_checking", engine="E-SEQ",
      note="Corpus families and K are bounded; multi-clause scores compared within 4 ulp per clause; the placement of documents without a sort value must only be consistent.",
      design_ref="3/C06")
 
+prop("C12", claimed=True, level="model_checking", engine="E-SEQ",
+     technique="bounded-exhaustive enumeration of corpora x segmentations x delete sets x scoring queries, each score compared with an independent BM25 evaluation from the searcher statistics, with explain(), across collectors / K and across segmentations",
+     text="Every multiset of <= 2 (thorough 3) documents over texts of <= 3 tokens, every contiguous segmentation and delete subset, 30 scoring queries (term, phrase, boolean should / must / must-not, boosts, const-score, dis-max with tie breakers 0 / 0.3 / 1, nested required-optional): every collected score equals the documented BM25 formula over N = sum max_doc, summed document frequencies, avgdl and the quantised field length; explain().value() and TopDocs for several K agree (bit-identical for one scoring clause); without deletes single-clause scores are bit-identical across all segmentations. Field-length family: a document at / around every quantisation bucket boundary up to 3000 (thorough 2^20) tokens, also spread over three segments and merged.",
+     note="The formula is evaluated in f32 in the documented operation order and compared with relative tolerance 6e-6; phrase-prefix and sloppy phrases have no closed-form model and are only checked for explain / collector / segmentation consistency.",
+     design_ref="3/C12")
+
 ALL = ["C%02d" % i for i in range(1, 21)]
 REASON_TODO = "check not built yet in this revision of /verif (design in DESIGN.md section 3); will be claimed when its engine lands"
 
